@@ -1,6 +1,7 @@
 import GceTcb.Base.Line
 import GceTcb.Base.Sha384
 import GceTcb.Model.SevCfg
+import GceTcb.Model.SevExample
 import GceTcb.Spec.SnpLaunch
 import GceTcb.Gen.SevLayout
 /-
@@ -9,6 +10,8 @@ Driver handler for stream `c04` (also used by `c08sev` for the measurement entry
   c04 op=ld  vcpus=<int> product=<n> fw=<image>                     sev.LaunchDigest
   c04 op=snp family=<0|1> image=<0|1> vmsas=<n> product=<n> fw=<image>   sev.UnsignedSnp
   c04 op=vmsa ap=<0|1> addr=<n>                                       PutVmsa of the BSP / AP reset state
+  c04 op=example name=<base|variant>                                  the bytes of the kernel-evaluated example image
+                                                                      (Model/SevExample.lean; theorems C04_example_*)
 
 `<image>` is a `;`-separated list of parts: `z<n>` n zero bytes, `b<hh>x<n>` one byte repeated,
 `p<seed>x<n>` the pattern byte_i = (seed + 7 i + i/256) mod 256, `h<hex>` literal bytes.
@@ -111,12 +114,23 @@ def vmsax (f : Fields) : String :=
   | .err _ => "reject"
   | .panic s => "panic=" ++ panicFn s
 
+/-- the image the theorems `C04_example_*` are about, byte for byte (the harness builds it independently) -/
+def exampleImage (name : String) : String :=
+  if name == "base" then "ok " ++ hexEncode SevExample.exFw
+  else if name == "wide" then "ok " ++ hexEncode SevExample.wideFw
+  else if name == "two-page" then "ok " ++ hexEncode SevExample.twoPageFw
+  else
+    match SevExample.variants.find? (fun p => p.1 == name) with
+    | some p => "ok " ++ hexEncode (SevExample.fwOf p.2)
+    | none => "bad-name"
+
 def handle (f : Fields) : String :=
   match f.get "op" with
-  | "vmsax" => vmsax f
   | "ld" => ld ⟨f.int "vcpus", f.nat "product"⟩ (image (f.get "fw"))
   | "snp" => snp f (image (f.get "fw"))
   | "vmsa" => vmsa f
+  | "vmsax" => vmsax f
+  | "example" => exampleImage (f.get "name")
   | _ => "bad-op"
 
 end GceTcb.Drive.C04
